@@ -1,0 +1,40 @@
+//go:build verif
+
+package jbig2
+
+import "seehuhn.de/go/membudget"
+
+// VerifPoolTrace runs the real bitmapPool accounting on a sequence of
+// operations (n > 0: charge n bytes, n < 0: release -n bytes) against a
+// budget of limit bytes and reports live, peak and the amount taken from the
+// budget (without membudget's per-charge overhead) after the last operation
+// that succeeded, and how many operations succeeded (verification property
+// C08).  A release of more than is live stops the trace (the real code
+// panics there).  It adds no logic of its own.
+func VerifPoolTrace(limit int64, ops []int) (live, peak int, taken int64, done int) {
+	p := &bitmapPool{budget: membudget.New(limit)}
+	charges := 0
+	for _, n := range ops {
+		if n >= 0 {
+			before := p.peak
+			if err := p.charge(n); err != nil {
+				break
+			}
+			if p.peak > before {
+				charges++
+			}
+		} else {
+			if -n > p.live {
+				break
+			}
+			p.release(-n)
+		}
+		done++
+	}
+	avail := p.budget.Available()
+	taken = limit - avail - int64(32*(charges+1))
+	if avail == 0 {
+		taken = -1 // the remainder is below one overhead unit: not observable through Available
+	}
+	return p.live, p.peak, taken, done
+}
